@@ -601,6 +601,10 @@ triage.add('C08', 'C08-R1', key('ValueError', 'raised in nfc.tag.tt4.Type4Tag.se
 triage.add('C08', 'C08-R1', key('ValueError', 'raised in nfc.tag.tt4.Type4Tag.send_apdu', "raise ValueError('unsupported max response length')"), APDU_REASON, APDU_ANCHORS)
 
 MUTANTS = [
+    ('tt4-send-apdu-recursion', 'nfc.tag.tt4', "        apdu = self.transceive(apdu)\n", "        apdu = self.transceive(apdu)\n        if len(apdu) == 2 and apdu[0] == 0x6C:\n            return self.send_apdu(cla, ins, p1, p2, data, apdu[1])\n", 'C08-R3'),
+    ('tt2-length-guard-truthiness', 'nfc.tag.tt2', "if ndef is not None and len(ndef) > self._capacity:", "if ndef and len(ndef) > self._capacity:", 'C08-R2'),
+    ('tt1-length-guard-off-by-one', 'nfc.tag.tt1', "if ndef is not None and len(ndef) > self._capacity:", "if ndef is not None and len(ndef) > self._capacity + 1:", 'C08-R2'),
+    ('tt4-read-overlong-answer', 'nfc.tag.tt4', "data += part[:nlen-len(data)]", "data += part", 'C08-R2'),
     ('nxp-version-map-entry-with-other-signature', 'nfc.tag.tt2_nxp', '    b"\\x00\\x04\\x04\\x01\\x01\\x00\\x0B\\x03": NTAG210,', '    b"\\x00\\x04\\x04\\x01\\x01\\x00\\x0B\\x03": MifareUltralightEV1,', 'C08-R5'),
     ('tt3-polling-length-by-response-only', 'nfc.tag.tt3', "        if len(data) != (16 if request_code == 0 else 18):", "        if len(data) not in (16, 18):", 'C08-R5'),
     ('tt3-read-stride-unbounded', 'nfc.tag.tt3', "nbr = min(attributes['nbr'], 15)", "nbr = attributes['nbr']", 'C08-R3'),
